@@ -68,6 +68,23 @@ theorem generated_cost_in_window (cls c : Cls) (a : UsingArgs) (hok : ClsOK cls)
       have := hcok.mx y hcm
       by_cases hy : y = 0 <;> simp [hcm, eff, hy] at hb; omega
 
+/-- optional variation never leaves the format's hard limits either: for every draw the generated cost lies in
+    `[min_rounds, max_rounds]`, so the `_norm_rounds` check in `__init__(use_defaults=True)` accepts it and `hash()`
+    does not fail on a cost it generated itself.  (Before the `fix:` commit that clips the vary range to the hard
+    limits this was false: `sha512_crypt.using(default_rounds=1000, vary_rounds=50).hash(…)` raised ValueError
+    for about half of the draws.) -/
+theorem generated_cost_in_hard_limits (c : Cls) (hodd : c.forceOdd = false) (draw : Nat) (fv r : Int)
+    (hdef : ∀ d, c.defaultRounds = some d → c.hardMin ≤ d ∧ ∀ b, eff c.hardMax = some b → d ≤ b)
+    (hg : generateRounds c draw fv = .ok r) :
+    (c.hardMin ≤ r ∧ ∀ b, eff c.hardMax = some b → r ≤ b) ∧ generateChecked c draw fv = .ok r :=
+  ⟨generate_in_hard c hodd draw fv r hdef hg, generateChecked_eq c hodd draw fv r hdef hg⟩
+
+/-- whatever the class attributes are, a cost that `hash()` accepted is inside the hard limits -/
+theorem hash_cost_never_outside_hard_limits (c : Cls) (draw : Nat) (fv k : Int) (h : generateChecked c draw fv = .ok k) :
+    c.hardMin ≤ k ∧ ∀ b, eff c.hardMax = some b → k ≤ b := (generateChecked_ok c draw fv k h).2
+
+example : generateChecked ⟨1000, some 999999999, none, none, some 1000, .int 50, false⟩ 7 = .ok 1007 := by decide
+
 /-- without variation the cost is exactly the (clipped) default -/
 theorem generated_cost_exact (c : Cls) (hv : varyTruthy c.vary = false) (hodd : c.forceOdd = false) (d : Int)
     (hd : c.defaultRounds = some d) (draw : Nat) (fv : Int) : generateRounds c draw fv = .ok d := by
